@@ -23,7 +23,7 @@ def cfgs(ctx):
     ]
     if not ctx.quick():
         t3 = F.L(("a", "b"), ("b", "c"), ("a", "c"))
-        out.append(F.base("c14-tri3", F.A3, t3, initups=[l2], exits=[["b"]], announcers=["a", "b"], maxann=2, conn=2))
+        out.append(F.base("c14-tri3", F.A3, t3, initups=[l2], exits=[["b"]], announcers=["a"], maxann=2, conn=2, replay=False))
         l4 = F.L(("a", "b"), ("b", "c"), ("c", "d"))
         out.append(F.base("c14-relay4", F.A4, l4, initups=[l4[:2]], exits=[["b"]], announcers=["a"], maxann=2, conn=1))
     return out
